@@ -44,9 +44,6 @@ func (e *Engine) VerifyFunc(key string) (ctx *FnCtx) {
 	st := &State{pcSet: map[string]bool{}, heap: map[string]Term{}, cells: map[int]Val{}, knownTags: map[string]int{}, lastCrash: map[string]string{}}
 	st.W = ctx.declare("W@0", SInt)
 	st.assume(Ge(st.W, Zero))
-	if len(fn.FreeVars) > 0 {
-		panic(unsupported("function literal verified on its own"))
-	}
 	names := paramNames(fn, fn.Signature, ct)
 	if len(names) != len(fn.Params) {
 		panic(specErr{fmt.Sprintf("%s: %d param names for %d params", key, len(names), len(fn.Params))})
@@ -61,6 +58,17 @@ func (e *Engine) VerifyFunc(key string) (ctx *FnCtx) {
 		args = append(args, v)
 		x.topVars[names[i]] = specVal{V: v, T: p.Type()}
 	}
+	// a function literal verified on its own: its captured variables are further inputs (by reference,
+	// as the closure sees them), named as in the enclosing function
+	var bind []Val
+	for _, fv := range fn.FreeVars {
+		v := x.freshVal(st, "in."+fv.Name(), fv.Type())
+		if pv, ok := v.(*PtrV); ok {
+			st.assume(Neq(pv.Obj, Zero))
+		}
+		bind = append(bind, v)
+		x.topVars[fv.Name()] = specVal{V: v, T: fv.Type()}
+	}
 	// spec axioms
 	x.addSpecAxioms(st)
 	nq := 0
@@ -70,7 +78,7 @@ func (e *Engine) VerifyFunc(key string) (ctx *FnCtx) {
 	}
 	x.entry = &State{heap: map[string]Term{}, epoch: 0, cells: map[int]Val{}, W: st.W, pcSet: map[string]bool{}}
 	ctx.entryPC = append([]Term(nil), st.pc...)
-	x.pushFrame(st, fn, args, nil, x.finish)
+	x.pushFrame(st, fn, args, bind, x.finish)
 	x.runBlock(st, fn.Blocks[0], nil)
 	x.drainPending()
 	// witness expressions (evaluated in the entry state) for counterexample extraction
@@ -123,7 +131,7 @@ func (e *Engine) FunctionsFor(prop string) []string {
 		if ct.Trusted || ct.Inline {
 			continue
 		}
-		if strings.HasPrefix(k, "var ") || strings.Contains(k, "$") {
+		if strings.HasPrefix(k, "var ") || (strings.Contains(k, "$") && len(ct.Ensures) == 0) {
 			continue
 		}
 		if fn := e.Funcs[k]; fn == nil || len(fn.Blocks) == 0 {
